@@ -348,4 +348,106 @@ theorem faulty_history_transparent : ∀ (hist : List V), (∀ o ∈ hist, D o) 
     exact faulty_history_transparent rest (fun o' ho' => hD o' (by simp [ho'])) si hinv' o ho s1 hs r s2 h
 
 end
+
+/-! ### the reliable backend (`MemoryCache`): total correctness -/
+
+section
+variable {env : Env} {run : Run} {x : Expr} {c : Nat} {D : V → Prop} {fp : V → V} {den : V → Except Err V}
+variable (H : FingerprintSound env run x c D fp den)
+include H
+
+theorem tm_existsReq (o : V) (ho : D o) :
+    T (StoreInv c D fp den) (existsReq env run x c o) (fun r => ∃ b, r = .ok b) := by
+  unfold existsReq
+  refine t_bind (t_emit _) (fun _ _ => t_bind (t_of_E (H.enabled o ho)) (fun b hb => ?_) (by intro e h; cases h)) (by intro e h; cases h)
+  cases hb
+  simp only [Bool.false_eq_true, if_false, backendExists, H.memory]
+  refine t_bind (t_of_E (H.fingerprint o ho)) (fun f hf => ?_) (by intro e h; cases h)
+  cases hf
+  exact t_bind (t_lookupStore o "exists") (fun res _ => t_pure _ ⟨_, rfl⟩) (by rintro e ⟨_, h, _⟩; cases h)
+
+theorem tm_backendGet (o : V) (ho : D o) :
+    T (StoreInv c D fp den) (backendGet env run x c o)
+      (fun r => (∃ v, r = .ok v ∧ Vouched D fp den o v) ∨ r = .error cacheGetFailure) := by
+  simp only [backendGet, H.memory]
+  refine t_bind (t_of_E (H.fingerprint o ho)) (fun f hf => ?_) (by intro e h; cases h)
+  cases hf
+  refine t_bind (t_lookupStore o "get") (fun res hres => ?_) (by rintro e ⟨_, h, _⟩; cases h)
+  obtain ⟨res', hr, hv⟩ := hres
+  cases hr
+  cases res with
+  | none => exact t_raise _ (Or.inr rfl)
+  | some v => exact t_pure _ (Or.inl ⟨v, rfl, hv v rfl⟩)
+
+theorem tm_getReq (o : V) (ho : D o) :
+    T (StoreInv c D fp den) (getReq env run x c o)
+      (fun r => (∃ v, r = .ok v ∧ Vouched D fp den o v) ∨ r = .error cacheGetFailure) := by
+  unfold getReq
+  refine t_bind (t_emit _) (fun _ _ => t_bind (t_of_E (H.enabled o ho)) (fun b hb => ?_) (by intro e h; cases h)) (by intro e h; cases h)
+  cases hb
+  simp only [Bool.false_eq_true, if_false]
+  exact tm_backendGet H o ho
+
+theorem tm_setReq (o : V) (ho : D o) (v : V) (hv : den o = .ok v) :
+    T (StoreInv c D fp den) (setReq env run x c o v) (· = .ok v) := by
+  unfold setReq
+  refine t_bind (t_emit _) (fun _ _ => t_bind (t_of_E (H.enabled o ho)) (fun b hb => ?_) (by intro e h; cases h)) (by intro e h; cases h)
+  cases hb
+  simp only [Bool.false_eq_true, if_false, backendSet, H.memory]
+  refine t_bind (t_bind (t_of_E (H.fingerprint o ho)) (fun f hf => by cases hf; exact t_store o ho v hv) (by intro e h; cases h))
+    (fun _ _ => ?_) (by intro e h; cases h)
+  refine t_handle (tm_backendGet H o ho) ?_ ?_
+  · rintro w (⟨w', hw, hvw⟩ | h)
+    · cases hw
+      have := vouched_eq H.sufficient ho hvw
+      rw [hv] at this
+      cases this; rfl
+    · cases h
+  · rintro e (⟨_, h, _⟩ | h)
+    · cases h
+    · cases h
+      simp only [if_true]
+      exact t_pure _ rfl
+
+/-- **total correctness over the reliable backend**: from any store satisfying the invariant the evaluation terminates
+    with the uncached outcome and re-establishes the invariant -/
+theorem tm_cached_evaluate (o : V) (ho : D o) :
+    T (StoreInv c D fp den) (cachedOp env run x c .evaluate o) (· = den o) := by
+  simp only [cachedOp]
+  have hlookup : T (StoreInv c D fp den) (cacheLookup env run x c o)
+      (fun r => (∃ v, r = .ok (some v) ∧ Vouched D fp den o v) ∨ r = .ok Option.none) := by
+    unfold cacheLookup
+    refine t_bind (tm_existsReq H o ho) (fun b _ => ?_) (by rintro e ⟨_, h⟩; cases h)
+    cases b
+    · simp only [Bool.false_eq_true, if_false]; exact t_pure _ (Or.inr rfl)
+    · simp only [if_true]
+      refine t_handle (Q1 := fun r => (∃ v, r = .ok (some v) ∧ Vouched D fp den o v) ∨ r = .error cacheGetFailure) ?_ ?_ ?_
+      · refine t_bind (tm_getReq H o ho) (fun v hv => ?_) ?_
+        · rcases hv with ⟨v', h, hvv⟩ | h
+          · cases h; exact t_pure _ (Or.inl ⟨v, rfl, hvv⟩)
+          · cases h
+        · rintro e (⟨_, h, _⟩ | h)
+          · cases h
+          · cases h; exact Or.inr rfl
+      · rintro a (h | h)
+        · exact Or.inl h
+        · cases h
+      · rintro e (⟨_, h, _⟩ | h)
+        · cases h
+        · cases h
+          simp only [if_true]
+          exact t_pure _ (Or.inr rfl)
+  refine t_bind hlookup (fun hit hh => ?_) (by rintro e (⟨_, h, _⟩ | h) <;> cases h)
+  cases hit with
+  | some v =>
+    rcases hh with ⟨v', h, hv⟩ | h
+    · cases h
+      exact t_pure _ (vouched_eq H.sufficient ho hv).symm
+    · cases h
+  | none =>
+    simp only []
+    refine t_bind (Q1 := (· = den o)) (t_of_E (H.inner o ho)) (fun v hv => ?_) (fun e he => he)
+    exact t_weaken (fun r hr => by rw [hr]; exact hv) (tm_setReq H o ho v hv.symm)
+
+end
 end Labrea
